@@ -408,7 +408,13 @@ CLI_SCENARIOS = [("build", "test"), ("test", "build"), ("build", "run"), ("run",
                  # `clean --expunge` run from ANOTHER workspace that shares GROG_ROOT, while a build of this workspace is running
                  ("build", "expunge@other", "build2"), ("test", "expunge@other", "expunge@other", "run"),
                  # the same workspace entered through a symlink ($PWD names the link), and from a sub-directory with a RELATIVE GROG_ROOT
-                 ("build", "build2@link"), ("build@link", "test"), ("build", "build2@sub"), ("run@sub", "build")]
+                 ("build", "build2@link"), ("build@link", "test"), ("build", "build2@sub"), ("run@sub", "build"),
+                 # flags that select what is built must not select a different lock: platform, all platforms, hash algorithm, load-outputs, profile
+                 ("build", "build2@plat"), ("test@plat", "build"), ("build", "run@allplat"), ("build@sha", "build2"), ("build", "test@minimal"),
+                 ("build", "build2@profile"), ("run@plat", "test@sha", "build"),
+                 # the same grog root spelled differently (trailing slash, `/./`, `/../`) by builds and by clean / expunge
+                 ("build", "build2@slashroot"), ("build@dotroot", "test@dotdotroot"), ("build", "clean@slashroot", "build2"),
+                 ("test", "expunge@dotroot", "build"), ("build@slashroot", "expunge@dotdotroot", "run@slashroot"), ("run", "clean@dotdotroot", "build2@dotroot")]
 CLI_ARGV = {"build": ["build", "//:b"], "build2": ["build", "//:b2"], "test": ["test", "//:unit_test"], "run": ["run", "//:app"], "clean": ["clean"],
             "expunge": ["clean", "--expunge"]}
 
@@ -439,6 +445,8 @@ def cli_scenario(grog, base, idx, kinds):
         {"name": "unit_test", "command": cmd("unit_test"), "tags": ["no-cache"]},
         {"name": "app", "command": cmd("app", "printf '#!/bin/sh\\necho ran\\n' > app.sh; chmod +x app.sh; "), "bin_output": "app.sh", "tags": ["no-cache"]},
     ]}, open(os.path.join(ws, "BUILD.json"), "w"))
+    os.makedirs(os.path.join(ws, "pk"))
+    json.dump({"targets": [{"name": "inpk", "command": "true"}]}, open(os.path.join(ws, "pk", "BUILD.json"), "w"))
     env = dict(os.environ, GROG_ROOT=root, HOME=os.path.join(d, "home"), GOGC="1")
     places = {w for _, w in map(cli_place, kinds)}
     other, link, sub = os.path.join(d, "other-ws"), os.path.join(d, "ws-link"), os.path.join(ws, "sub")
@@ -447,6 +455,8 @@ def cli_scenario(grog, base, idx, kinds):
         open(os.path.join(other, "grog.toml"), "w").write("")
     if "link" in places:
         os.symlink(ws, link)
+    if "profile" in places:
+        open(os.path.join(ws, "grog.alt.toml"), "w").write('hash_algorithm = "sha256"\nload_outputs = "minimal"\n')
     if "sub" in places:
         os.makedirs(sub)
         env["GROG_ROOT"] = "relroot"          # relative: must mean one directory for the whole workspace, not one per cwd
@@ -454,9 +464,15 @@ def cli_scenario(grog, base, idx, kinds):
     for k, kind_full in enumerate(kinds):
         kind, where = cli_place(kind_full)
         before = os.path.getsize(trace)
-        cwd = {"": ws, "other": other, "link": link, "sub": sub}[where]
+        cwd = {"other": other, "link": link, "sub": sub}.get(where, ws)
         penv = dict(env, PWD=cwd)
-        p = subprocess.Popen([grog] + CLI_ARGV[kind], cwd=cwd, env=penv, stdout=subprocess.PIPE, stderr=subprocess.STDOUT)
+        extra = {"plat": ["--platform=plan9/arm"], "allplat": ["--all-platforms"], "minimal": ["--load-outputs=minimal"], "profile": ["--profile=alt"]}.get(where, [])
+        if where == "sha":
+            penv["GROG_HASH_ALGORITHM"] = "sha256"
+        if where in ("slashroot", "dotroot", "dotdotroot"):
+            penv["GROG_ROOT"] = {"slashroot": root + "/", "dotroot": d + "/./root",
+                                 "dotdotroot": d + "/ws/../root"}[where]
+        p = subprocess.Popen([grog] + CLI_ARGV[kind] + extra, cwd=cwd, env=penv, stdout=subprocess.PIPE, stderr=subprocess.STDOUT)
         procs.append(p)
         t0 = time.time()
         # first command: wait until its target command runs (it holds the lock); later ones: give them 0.4 s
@@ -481,11 +497,18 @@ def cli_scenario(grog, base, idx, kinds):
     for t in toks:
         depth += 1 if t[0] == "B" else -1
         mx = max(mx, depth)
+    link_list = None
+    if "link" in places:
+        # relative patterns must work when the workspace was entered through the symlink
+        pl = subprocess.run([grog, "list", ":all"], cwd=os.path.join(link, "pk"), env=dict(env, PWD=os.path.join(link, "pk")), capture_output=True, text=True, timeout=60)
+        link_list = {"exit": pl.returncode, "stdout": pl.stdout[-300:]}
     shutil.rmtree(d, ignore_errors=True)
-    where_txt = {"": "", "other": "   [in another workspace sharing GROG_ROOT]", "link": "   [cwd and $PWD = a symlink to the workspace]",
+    where_txt = {"plat": "   [--platform=plan9/arm]", "allplat": "   [--all-platforms]", "sha": "   [GROG_HASH_ALGORITHM=sha256]", "minimal": "   [--load-outputs=minimal]",
+                 "profile": "   [--profile=alt: sha256, minimal]", "slashroot": "   [GROG_ROOT=<root>/]", "dotroot": "   [GROG_ROOT=<dir>/./root]",
+                 "dotdotroot": "   [GROG_ROOT=<dir>/ws/../root]", "": "", "other": "   [in another workspace sharing GROG_ROOT]", "link": "   [cwd and $PWD = a symlink to the workspace]",
                  "sub": "   [cwd = <workspace>/sub, GROG_ROOT=relroot (relative)]"}
     return {"commands": [" ".join(["grog"] + CLI_ARGV[cli_place(k)[0]]) + where_txt[cli_place(k)[1]] for k in kinds], "kinds": list(kinds), "trace": [" ".join(t) for t in toks],
-            "max_overlap": mx, "exit_codes": codes, "outputs": outs}
+            "max_overlap": mx, "exit_codes": codes, "outputs": outs, "list_from_link": link_list}
 
 
 def cli_commands(ctx):
@@ -502,6 +525,11 @@ def cli_commands(ctx):
     for rec in recs:
         ctx.coverage["evaluations"] += 1
         summary.append({"commands": rec["kinds"], "max_overlap": rec["max_overlap"], "exit_codes": rec["exit_codes"]})
+        ll = rec.get("list_from_link")
+        if ll is not None and (ll["exit"] != 0 or "//pk:inpk" not in ll["stdout"]):
+            ctx.violation("`grog list :all` run from <symlink to the workspace>/pk does not print the targets of package pk (relative patterns are resolved "
+                          "against an unresolved working directory)", {"kind": "oracle", "oracle": "CLI: entering the workspace through a symlink", **rec},
+                          signature="cli:relative-pattern-through-symlink")
         n_build = sum(1 for k in rec["kinds"] if cli_place(k)[0] not in ("clean", "expunge"))
         started = sum(1 for t in rec["trace"] if t.startswith("B "))
         if rec["max_overlap"] > 1:
